@@ -1,8 +1,8 @@
-(* FIXED variant (see ModelFixed.v): the C01 theorems at full strength for TCP readers. *)
+(* The C01 theorems over the pipeline model, derived from the invariant of Proofs.v. *)
 From Coq Require Import Permutation.
 From Coq Require Import ZifyBool ZifyNat ZifyN.
 From GVL Require Import NList Wire.
-From GV_pipeline Require Import ModelFixed ProofsFixed.
+From GV_pipeline Require Import Model Proofs.
 Open Scope N_scope.
 
 Ltac prj := cbn [r_tcp r_setup r_ph r_active r_w r_queue r_ring r_rp r_wp r_wire r_con r_deliv r_hist r_lost r_rx r_resets upd_ctl upd_data upd_ring upd_rx].
@@ -102,7 +102,7 @@ Theorem delivered_identical r d :
                d_pkt d = set_ssrc p0 s.
 Proof.
   intros Hr Hd. pose proof (reach_inv _ _ _ Hreach) as Hi. unfold sinv in Hi. rewrite Forall_forall in Hi.
-  destruct (Hi _ Hr) as [_ _ _ _ H4 _ _ _ _ _ _ _ _ _ _]. rewrite Forall_forall in H4.
+  destruct (Hi _ Hr) as [_ _ _ _ H4 _ _ _ _ _ _ _ _ _]. rewrite Forall_forall in H4.
   destruct (H4 _ Hd) as (p0 & fs & s & H1 & H2 & H3 & H5). exists p0, s. repeat split; auto.
   unfold ssrc_of. rewrite H2. now rewrite (find_fmt_nnth _ _ _ _ H3).
 Qed.
@@ -111,7 +111,7 @@ Qed.
 Theorem delivered_at_most_once r : In r (s_readers st) -> NoDup (didxs (r_deliv r)).
 Proof.
   intros Hr. pose proof (reach_inv _ _ _ Hreach) as Hi. unfold sinv in Hi. rewrite Forall_forall in Hi.
-  destruct (Hi _ Hr) as [_ _ _ _ _ _ _ _ _ H9 (_ & Hs) _ _ _ _].
+  destruct (Hi _ Hr) as [_ _ _ _ _ _ _ _ _ H9 (_ & Hs) _ _ _].
   apply (NoDup_count_occ N.eq_dec). intros n.
   pose proof (proj1 (NoDup_count_occ N.eq_dec _) (sinc_NoDup _ Hs) n) as Hn.
   specialize (H9 n). unfold cnt in H9. lia.
@@ -123,7 +123,7 @@ Theorem delivered_in_order_partial r m f :
   In r (s_readers st) -> sinc (didxs (filter (same_mf m f) (ordered_part r))).
 Proof.
   intros Hr. pose proof (reach_inv _ _ _ Hreach) as Hi. unfold sinv in Hi. rewrite Forall_forall in Hi.
-  destruct (Hi _ Hr) as [_ _ _ _ _ H5 _ _ _ _ _ _ _ _ _]. now apply inc_mf_sinc.
+  destruct (Hi _ Hr) as [_ _ _ _ _ H5 _ _ _ _ _ _ _ _]. now apply inc_mf_sinc.
 Qed.
 
 Lemma ordered_part_incl r d : In d (ordered_part r) -> In d (r_deliv r).
@@ -170,7 +170,7 @@ Theorem announced_ssrc r d m s :
   In r (s_readers st) -> In d (r_deliv r) -> d_m d = m -> announce c m = Some s -> p_ssrc (d_pkt d) = s.
 Proof.
   intros Hr Hd Hm Ha. pose proof (reach_inv _ _ _ Hreach) as Hi. unfold sinv in Hi. rewrite Forall_forall in Hi.
-  destruct (Hi _ Hr) as [_ _ _ _ H4 _ _ _ _ _ _ _ _ _ _]. rewrite Forall_forall in H4.
+  destruct (Hi _ Hr) as [_ _ _ _ H4 _ _ _ _ _ _ _ _ _]. rewrite Forall_forall in H4.
   destruct (H4 _ Hd) as (p0 & fs & s' & H1 & H2 & H3 & H5). subst m.
   unfold announce in Ha. rewrite H2 in Ha. destruct fs as [|[pt0 s0] [|? ?]]; try discriminate.
   inversion Ha; subst s0. unfold find_fmt in H3. cbn [find_fmt_aux] in H3.
@@ -192,7 +192,7 @@ Theorem conservation r :
     (didxs (r_deliv r) ++ r_lost r ++ idxs (r_wire r) ++ idxs (r_queue r) ++ idxs (ritems (r_ring r))).
 Proof.
   intros Hr. pose proof (reach_inv _ _ _ Hreach) as Hi. unfold sinv in Hi. rewrite Forall_forall in Hi.
-  destruct (Hi _ Hr) as [_ _ _ _ _ _ _ _ _ H9 _ _ _ _ _].
+  destruct (Hi _ Hr) as [_ _ _ _ _ _ _ _ _ H9 _ _ _ _].
   apply (Permutation_count_occ N.eq_dec). intros n. specialize (H9 n). unfold cnt in H9.
   rewrite !count_occ_app. lia.
 Qed.
@@ -212,7 +212,7 @@ Theorem tcp_global_order_partial r :
   In r (s_readers st) -> r_tcp r = true -> sinc (didxs (nl_d (r_deliv r))).
 Proof.
   intros Hr Ht. pose proof (reach_inv _ _ _ Hreach) as Hi. unfold sinv in Hi. rewrite Forall_forall in Hi.
-  destruct (Hi _ Hr) as [_ _ _ _ _ _ H6 _ _ _ _ _ _ _ _]. specialize (H6 Ht). now apply sinc_drop_tail in H6.
+  destruct (Hi _ Hr) as [_ _ _ _ _ _ H6 _ _ _ _ _ _ _]. specialize (H6 Ht). now apply sinc_drop_tail in H6.
 Qed.
 
 (* once PLAY has completed (and until a stop is requested) the reader is active and has a writer *)
@@ -220,7 +220,7 @@ Theorem playing_is_active r :
   In r (s_readers st) -> r_ph r = PhPlaying -> r_active r = true /\ exists b, r_w r = WOpen b.
 Proof.
   intros Hr Hp. pose proof (reach_inv _ _ _ Hreach) as Hi. unfold sinv in Hi. rewrite Forall_forall in Hi.
-  destruct (Hi _ Hr) as [_ _ _ _ _ _ _ _ H8 _ _ _ _ _ _]. unfold ph_inv in H8. now rewrite Hp in H8.
+  destruct (Hi _ Hr) as [_ _ _ _ _ _ _ _ H8 _ _ _ _ _]. unfold ph_inv in H8. now rewrite Hp in H8.
 Qed.
 
 (* a writer that is closed but not yet dropped exists only while a stop is being processed *)
@@ -228,7 +228,7 @@ Theorem closed_writer_only_when_stopping r b :
   In r (s_readers st) -> r_w r = WClosed b -> r_ph r = PhStopReq.
 Proof.
   intros Hr Hw. pose proof (reach_inv _ _ _ Hreach) as Hi. unfold sinv in Hi. rewrite Forall_forall in Hi.
-  destruct (Hi _ Hr) as [_ _ _ _ _ _ _ _ H8 _ _ _ _ _ _]. unfold ph_inv in H8.
+  destruct (Hi _ Hr) as [_ _ _ _ _ _ _ _ H8 _ _ _ _ _]. unfold ph_inv in H8.
   destruct (r_ph r); auto; try (exfalso; now apply (H8 b)).
   destruct H8 as (_ & b' & H8). congruence.
 Qed.
@@ -313,7 +313,7 @@ Lemma ctl_effect c W kk r r' :
   (r_ph r <> PhStopReq -> clean r -> clean r').
 Proof.
   unfold is_discard, clean. intros Hi H.
-  pose proof Hi as [_ (_ & Hq) _ _ _ _ _ _ Hph _ _ _ _ _ _].
+  pose proof Hi as [_ (_ & Hq) _ _ _ _ _ _ Hph _ _ _ _ _].
   destruct kk; cbn [r_ctl] in H.
   - unfold r_playreq in H. destruct (r_ph r), (r_w r), (r_active r); try discriminate; inversion H; subst; prj;
       repeat split; auto; try discriminate; tauto.
@@ -330,7 +330,7 @@ Proof.
     + destruct (r_queue r) as [|x q]; [discriminate|]. inversion H; subst; prj. repeat split; auto; try tauto.
       match goal with Hc : _ /\ _ /\ _ |- _ => destruct Hc as (C1 & _) end.
       apply Forall_app; split; auto. inversion Hq; subst. auto.
-    + destruct (r_queue r) as [|x q]; [discriminate|]. inversion H; subst; prj.
+    + destruct (nnth (r_rp r) (r_ring r)) as [[x|]|]; try discriminate. inversion H; subst; prj.
       assert (Hp : r_ph r = PhStopReq).
       { unfold ph_inv in Hph. destruct (r_ph r); auto; try (exfalso; now apply (Hph true)).
         destruct Hph as (_ & b & Hb). congruence. }
@@ -354,12 +354,16 @@ Lemma push_effect c W m f idx p r :
   r_tcp r' = r_tcp r /\ r_setup r' = r_setup r /\ r_lost r' = r_lost r /\ r_ph r' = r_ph r /\
   (r_ph r <> PhStopReq -> clean r -> clean r').
 Proof.
-  intros Hi. pose proof Hi as [_ _ _ _ _ _ _ _ Hph _ _ _ _ _ _]. unfold clean.
+  intros Hi. pose proof Hi as [_ _ _ _ _ _ _ _ Hph _ _ _ _ _]. unfold clean.
   unfold r_push. destruct (r_active r); [|cbn; tauto].
   destruct (chan_of (r_setup r) m); [|cbn; tauto].
   destruct (r_w r) as [|b|b] eqn:Ew; [cbn; tauto| |].
   - destruct (nlen (r_queue r) <? c_Q c); cbn; tauto.
-  - cbn; tauto.
+  - destruct (nnth (r_wp r) (r_ring r)) as [[y|]|]; cbn; try tauto.
+    assert (Hp : r_ph r = PhStopReq).
+    { unfold ph_inv in Hph. destruct (r_ph r); auto; try (exfalso; now apply (Hph b)).
+      destruct Hph as (_ & b' & Hb). congruence. }
+    repeat split; auto; congruence.
 Qed.
 
 Lemma arrive_effect c W i r r' d :
@@ -367,7 +371,7 @@ Lemma arrive_effect c W i r r' d :
   r_tcp r' = r_tcp r /\ r_setup r' = r_setup r /\ r_ph r' = r_ph r /\
   (r_tcp r = true -> r_lost r' = r_lost r /\ d <> None /\ (clean r -> clean r')).
 Proof.
-  intros Hi H. pose proof Hi as [H1 _ _ H3 _ _ _ _ _ _ _ _ _ _ _]. unfold clean.
+  intros Hi H. pose proof Hi as [H1 _ _ H3 _ _ _ _ _ _ _ _ _ _]. unfold clean.
   unfold r_arrive in H. destruct (r_con r); cbn [negb] in H; [|discriminate].
   destruct (r_tcp r && negb (i =? 0)); [discriminate|].
   destruct (take_nth i (r_wire r)) as [[x wi]|] eqn:Et; [|discriminate].
@@ -534,7 +538,7 @@ Theorem udp_in_order_until_reset c rs st r m f :
 Proof.
   intros Hre Hr Ht Hz. pose proof (delivered_in_order_partial _ _ _ Hre r m f Hr) as H.
   pose proof (reach_inv _ _ _ Hre) as Hi. unfold sinv in Hi. rewrite Forall_forall in Hi.
-  destruct (Hi _ Hr) as [_ _ _ _ _ _ _ _ _ _ _ _ _ H12 _].
+  destruct (Hi _ Hr) as [_ _ _ _ _ _ _ _ _ _ _ _ H12 _].
   unfold ordered_part in H. now rewrite (nl_d_clean _ (H12 Ht Hz)) in H.
 Qed.
 
@@ -561,7 +565,7 @@ Proof.
     + unfold r_stopreq in Hc. destruct (r_ph r); try discriminate; now inversion Hc.
     + unfold r_drain in Hc. destruct (r_w r) as [|[|]|[|]]; try discriminate.
       * destruct (r_queue r); [discriminate|]. now inversion Hc.
-      * destruct (r_queue r); [discriminate|]. now inversion Hc.
+      * destruct (nnth (r_rp r) (r_ring r)) as [[x|]|]; try discriminate. now inversion Hc.
     + unfold r_closew in Hc. destruct (r_ph r), (r_w r); try discriminate; now inversion Hc.
     + unfold r_nilw in Hc. destruct (r_ph r), (r_w r); try discriminate; now inversion Hc.
     + unfold r_deact in Hc. destruct (r_ph r); try discriminate; now inversion Hc.
@@ -571,8 +575,9 @@ Proof.
     + unfold r_cclose in Hc. destruct (r_ph r); try discriminate; now inversion Hc.
   - exfalso. apply Hne. unfold r_push. destruct (r_active r); [|reflexivity].
     destruct (chan_of (r_setup r) m); [|reflexivity].
-    destruct (r_w r); [reflexivity| |reflexivity].
-    destruct (nlen (r_queue r) <? c_Q c); reflexivity.
+    destruct (r_w r); [reflexivity| |].
+    + destruct (nlen (r_queue r) <? c_Q c); reflexivity.
+    + destruct (nnth (r_wp r) (r_ring r)) as [[y|]|]; reflexivity.
   - unfold r_arrive in Hc. destruct (r_con r); cbn [negb] in Hc; [|discriminate].
     destruct (r_tcp r && negb (i =? 0)); [discriminate|].
     destruct (take_nth i (r_wire r)) as [[x wi]|]; [|discriminate].
@@ -588,38 +593,55 @@ Proof.
     destruct (take_nth i (r_wire r)) as [[x wi]|]; [|discriminate]. now inversion Hc.
 Qed.
 
+(* ---------- the order property is FALSE of the faithful model ---------- *)
+(* capacity 4, one media with one format, one TCP reader.  Two packets are queued (the consumer has not
+   run yet) when PAUSE arrives; Close() clears the slots but keeps the indices two apart; four more
+   packets are pushed before writer = nil; the still-running consumer executes them starting at the stale
+   read index: 4, 5, 2, 3. *)
+Definition rf_cfg := mkCfg 4 64 [[(96, 7)]].
+Definition rf_rs := [new_reader true [(0, 0)]].
+Definition rf_p (seq : N) := mkP seq 0 false 96 0 [seq].
+Definition rf_steps :=
+  [ SCtl CPlayReq 0; SCtl CCreate 0; SCtl CActivate 0; SCtl CStart 0; SCtl CPlayDone 0;
+    SWrite 0 (rf_p 100) []; SWrite 0 (rf_p 101) [];
+    SCtl CStopReq 0; SCtl CCloseW 0;
+    SWrite 0 (rf_p 102) []; SWrite 0 (rf_p 103) []; SWrite 0 (rf_p 104) []; SWrite 0 (rf_p 105) [];
+    SWrite 0 (rf_p 106) [0];
+    SCtl CDrain 0; SCtl CDrain 0; SCtl CDrain 0; SCtl CDrain 0;
+    SArrive 0 0 (Some (mkObs 0 0 4 (set_ssrc (rf_p 104) 7)));
+    SArrive 0 0 (Some (mkObs 0 0 5 (set_ssrc (rf_p 105) 7)));
+    SArrive 0 0 (Some (mkObs 0 0 2 (set_ssrc (rf_p 102) 7)));
+    SArrive 0 0 (Some (mkObs 0 0 3 (set_ssrc (rf_p 103) 7)));
+    SCtl CNilW 0; SCtl CDeact 0; SCtl CStopDone 0 ].
 
-(* ---------- with the repair: TCP readers receive everything in the order written, unconditionally ---------- *)
-Lemma nl_d_all dl : Forall (fun d => d_late d = false) dl -> nl_d dl = dl.
+Theorem delivered_in_order_refuted :
+  exists c rs steps st r m f,
+    readers_ok rs /\ exec c (init rs) steps = Some st /\ In r (s_readers st) /\ r_tcp r = true /\
+    didxs (filter (same_mf m f) (r_deliv r)) = [4; 5; 2; 3] /\
+    ~ sinc (didxs (filter (same_mf m f) (r_deliv r))).
 Proof.
-  unfold nl_d. induction 1 as [|d t Hd _ IH]; cbn [filter]; [reflexivity|]. rewrite Hd. cbn. now rewrite IH.
+  exists rf_cfg, rf_rs, rf_steps.
+  destruct (exec rf_cfg (init rf_rs) rf_steps) as [st|] eqn:E; [|vm_compute in E; discriminate].
+  exists st. vm_compute in E. inversion E; subst st. clear E.
+  eexists. exists 0, 0. split.
+  - repeat constructor. eexists; eexists. split; [reflexivity|]. cbn. repeat constructor. intros [].
+  - split; [reflexivity|]. split; [left; reflexivity|]. split; [reflexivity|]. split; [reflexivity|].
+    cbn. intros (H & _). inversion H as [|? ? _ H']. inversion H' as [|? ? H'' _]. lia.
 Qed.
 
-Theorem tcp_delivered_in_order c rs st r m f :
-  reach c rs st -> In r (s_readers st) -> r_tcp r = true ->
-  sinc (didxs (filter (same_mf m f) (r_deliv r))).
+Theorem delivered_is_subsequence_refuted :
+  exists c rs steps st r m f s,
+    readers_ok rs /\ exec c (init rs) steps = Some st /\ In r (s_readers st) /\ ssrc_of c m f = Some s /\
+    ~ Subseq (deliv_mf r m f) (map (fun p => set_ssrc p s) (written_mf (s_written st) m f)).
 Proof.
-  intros Hre Hr Ht. pose proof (delivered_in_order_partial _ _ _ Hre r m f Hr) as H.
-  pose proof (reach_inv _ _ _ Hre) as Hi. unfold sinv in Hi. rewrite Forall_forall in Hi.
-  destruct (Hi _ Hr) as [_ _ _ _ _ _ _ _ _ _ _ _ (_ & Hnl) _ _].
-  unfold ordered_part in H. now rewrite (nl_d_all _ (Hnl Ht)) in H.
-Qed.
-
-Theorem tcp_delivered_is_subsequence c rs st r m f s :
-  reach c rs st -> In r (s_readers st) -> r_tcp r = true -> ssrc_of c m f = Some s ->
-  Subseq (deliv_mf r m f) (map (fun p => set_ssrc p s) (written_mf (s_written st) m f)).
-Proof.
-  intros Hre Hr Ht Hs. pose proof (delivered_is_subsequence_partial _ _ _ Hre r m f s Hr Hs) as H.
-  pose proof (reach_inv _ _ _ Hre) as Hi. unfold sinv in Hi. rewrite Forall_forall in Hi.
-  destruct (Hi _ Hr) as [_ _ _ _ _ _ _ _ _ _ _ _ (_ & Hnl) _ _].
-  unfold deliv_mf_ord, ordered_part in H. rewrite (nl_d_all _ (Hnl Ht)) in H. exact H.
-Qed.
-
-Theorem tcp_global_order c rs st r :
-  reach c rs st -> In r (s_readers st) -> r_tcp r = true -> sinc (didxs (r_deliv r)).
-Proof.
-  intros Hre Hr Ht. pose proof (tcp_global_order_partial _ _ _ Hre r Hr Ht) as H.
-  pose proof (reach_inv _ _ _ Hre) as Hi. unfold sinv in Hi. rewrite Forall_forall in Hi.
-  destruct (Hi _ Hr) as [_ _ _ _ _ _ _ _ _ _ _ _ (_ & Hnl) _ _].
-  now rewrite (nl_d_all _ (Hnl Ht)) in H.
+  exists rf_cfg, rf_rs, rf_steps.
+  destruct (exec rf_cfg (init rf_rs) rf_steps) as [st|] eqn:E; [|vm_compute in E; discriminate].
+  exists st. vm_compute in E. inversion E; subst st. clear E.
+  eexists. exists 0, 0, 7. split.
+  - repeat constructor. eexists; eexists. split; [reflexivity|]. cbn. repeat constructor. intros [].
+  - split; [reflexivity|]. split; [left; reflexivity|]. split; [reflexivity|].
+    vm_compute. intros H.
+    repeat match goal with
+    | H : Subseq _ _ |- _ => inversion H; clear H; subst
+    end.
 Qed.
